@@ -529,8 +529,8 @@ func TestVerifKeepAlive(t *testing.T) {
 		}
 		for _, ln := range strings.Split(string(b), "\n") {
 			ln = strings.TrimSpace(ln)
-			if ln == "" || strings.HasPrefix(ln, "#") || ln == "reset" {
-				continue
+			if ln == "" || strings.HasPrefix(ln, "#") || ln == "reset" || strings.HasPrefix(ln, "kss ") {
+				continue // `kss` lines belong to the stream `sessions`
 			}
 			c, ok := kaParse(ln)
 			if !ok {
@@ -542,6 +542,9 @@ func TestVerifKeepAlive(t *testing.T) {
 	}
 	if p := os.Getenv("VERIF_REPLAY"); p != "" {
 		replay(p, "replay")
+		if n == 0 {
+			out.line("replay", "reset", "ok", "reset") // a replay of the other stream of this engine
+		}
 		return
 	}
 	if p := os.Getenv("VERIF_CORPUS"); p != "" {
